@@ -67,6 +67,8 @@ fixed("C07","C07/error-line-out-of-range/mutation","de58904","a zone text ending
 fixed("C07","C07/syntax-error-not-reported/unbalanced-parenthesis/CSYNC","cdc71f1","an unbalanced parenthesis inside the RDATA of NSEC, NSEC3, NXT, CSYNC, LOC, HIP, APL, SVCB/HTTPS or NSEC3PARAM was swallowed: the record was returned, every later entry silently dropped and Err() stayed nil (those RDATA loops ignore the lexer's error flag)")
 fixed("C07","C07/syntax-error-not-reported/ttl-out-of-range","caf99ce","a TTL written with so many digits that the 64-bit accumulator wraps (18446744073709551617) was accepted as a small TTL (1) in records, $TTL and $GENERATE templates instead of being reported (noticed by a round-5 sub-agent while preparing a different change)")
 # ---- C11
+known("C10","C10/sign-fails/key-tag-0","RRSIG.Sign treats KeyTag 0 as 'not set' and returns ErrKey: an RRset cannot be signed with a key whose RFC 4034 key tag is 0 (one key in 65536; reproduced with a deterministic Ed25519 key)")
+known("C18","C18/sign-fails/key-tag-0","SIG.Sign (and SIG.Verify) treat KeyTag 0 as 'not set' and return ErrKey: SIG(0) cannot be used with a KEY whose key tag is 0 (one key in 65536; reproduced with a deterministic Ed25519 key)")
 fixed("C10","C10/irrelevant-variant-rejected/raw-8bit-spelling/ED25519","8981502","CanonicalName mapped runes instead of octets (strings.Map): every raw octet above 0x7F that is not part of a valid UTF-8 sequence was replaced by U+FFFD, so RRSIGs over names holding such octets did not verify against the same names written with \\DDD escapes; also observable as C19/CanonicalName/raw-8bit")
 fixed("C11","C11/accepts-altered/field/fudge-zero","a6d820e","TsigVerify substituted the default fudge 300 (and the current time) for a zero fudge / time signed found in the received TSIG, so a message whose fudge was changed from 300 to 0 still verified")
 # ---- C13
